@@ -1,10 +1,13 @@
 #!/bin/bash
 # tools/try_seed.sh <property> <patch.diff> [tier] : apply a seeded change to /repo, run the check, undo it
+# (the evidence file of the property is restored afterwards: evidence committed must come from the unchanged tree)
 prop=$1; patch=$2; tier=${3:-quick}
 cd /verif
 git -C /repo diff --quiet || { echo "/repo is dirty"; exit 9; }
+cp evidence/$prop.json /tmp/evidence_$prop.json.keep 2>/dev/null
 git -C /repo apply $(realpath $patch) || exit 8
 ./check $prop --tier $tier; rc=$?
 git -C /repo checkout -- .
+[ -f /tmp/evidence_$prop.json.keep ] && mv /tmp/evidence_$prop.json.keep evidence/$prop.json
 echo "check exit=$rc"
 exit $rc
